@@ -34,6 +34,7 @@ from .common import (
     is_empty_list,
     is_memo_fill,
     is_notify,
+    new_private_state,
     only_called_from,
     resolve_root,
     self_attr_reads,
@@ -95,10 +96,23 @@ def _clock_source(ctx, disp):
     if ct is None:
         raise AnalysisError("Dispatcher.current_time vanished")
     f = ctx.norm.flat(ct, depth=3)
-    calls = [n for n in own_nodes(f.node) if isinstance(n, ast.Call) and isinstance(n.func, ast.Attribute) and n.func.attr == "min_start_time" and n.args]
+    calls = [n for n in own_nodes(f.node) if isinstance(n, ast.Call) and isinstance(n.func, ast.Attribute) and n.func.attr == "min_start_time"]
     if len(calls) != 1:
         raise AnalysisError("Dispatcher.current_time: the min_start_time(...) call is not recognised")
-    src = ctx.norm.xexpr(f, calls[0].args[0])
+    if calls[0].args:
+        src = ctx.norm.xexpr(f, calls[0].args[0])
+    else:
+        # min_start_time() with the list left out: what the method itself takes then (`if operations is None: operations = ...`)
+        mst = ctx.repo.method(disp, "min_start_time")
+        src = None
+        if mst is not None and len(mst.params) > 1:
+            pn = mst.params[1]
+            for st in own_nodes(mst.node):
+                if isinstance(st, ast.If) and ast.unparse(st.test).replace(" ", "") == f"{pn}isNone" and len(st.body) == 1 and isinstance(st.body[0], ast.Assign) \
+                        and ast.unparse(st.body[0].targets[0]) == pn:
+                    src = ctx.norm.xexpr(mst, st.body[0].value)
+        if src is None:
+            raise AnalysisError("Dispatcher.current_time: min_start_time() is called without a list and its default is not recognised")
     t = ast.unparse(src)
     if isinstance(src, ast.Call) and isinstance(src.func, ast.Attribute) and src.func.attr == "available_operations":
         chk.ok("R05.g", ct.qualname, f.loc(calls[0]), "min_start_time(self.available_operations())")
@@ -174,6 +188,48 @@ def run(ctx):
     if len(state) < 4:
         raise AnalysisError(f"read set of memoised queries implausibly small: {sorted(state)}")
 
+    from ..baseline_api import BASELINE_ATTRS
+
+    pinned_attrs = set(BASELINE_ATTRS.get("Dispatcher", ()))
+    incremental: dict[str, set] = {}
+
+    # bookkeeping that memoised queries themselves keep up to date (private attributes the pinned classes do not
+    # have, written in the call closure of a cached query): only such state makes a scheme "incremental"; the
+    # dispatcher's own tracking state, however it is housed, is not
+    query_written: set[str] = set()
+    for m_ in cached:
+        try:
+            for w_ in eff.closure_writes(m_, disp, max_depth=5):
+                nps_ = new_private_state(ctx, w_)
+                if nps_ is not None:
+                    query_written.add(nps_)
+        except Exception:
+            pass
+
+    def _new_private(ev):
+        """name of the private attribute, unknown to the pinned class it belongs to, that the write event stores into
+        - if memoised queries keep that attribute themselves (see query_written)"""
+        got = _new_private_any(ev)
+        if got is None:
+            return None
+        return got if got.rsplit(".", 1)[-1] in query_written else None
+
+    def _new_private_any(ev):
+        d_attr = (resolve_root(ev)[1] or [""])[0]
+        if d_attr.startswith("_") and not d_attr.startswith("__") and d_attr not in pinned_attrs:
+            return d_attr
+        fi_, tgt_ = ev.fi, ev.data.get("target")
+        ci_ = getattr(fi_, "cls", None)
+        while isinstance(tgt_, ast.Subscript):
+            tgt_ = tgt_.value
+        if ci_ is not None and fi_.params and isinstance(tgt_, ast.Attribute) and isinstance(tgt_.value, ast.Name) and tgt_.value.id == fi_.params[0]:
+            known_ = set()
+            for q_ in ci_.mro:
+                known_ |= set(BASELINE_ATTRS.get(q_.rsplit(".", 1)[-1], ()))
+            if ci_.name in BASELINE_ATTRS and tgt_.attr.startswith("_") and not tgt_.attr.startswith("__") and tgt_.attr not in known_:
+                return f"{ci_.name}.{tgt_.attr}"
+        return None
+
     # ---------------------------------------------------------------- R05.a
     def relevant(e):
         if e.kind == "write" and not e.data.get("local"):
@@ -218,6 +274,11 @@ def run(ctx):
                     if chain[0] in state and not is_memo_fill(ctx, ev):
                         dirty = ev
                 elif dirty is not None and is_notify(ctx, ev):
+                    d_attr = _new_private(dirty)
+                    if d_attr is not None:
+                        incremental.setdefault(m.name, set()).add(d_attr)
+                        dirty = None
+                        continue
                     bad = True
                     chk.violation(
                         "R05.a", m, dirty.node,
@@ -228,6 +289,12 @@ def run(ctx):
                     dirty = None
                     break
             if dirty is not None:
+                d_attr = _new_private(dirty)
+                if d_attr is not None:
+                    # bookkeeping the pinned tree does not have, written without a cache clear after it (kept
+                    # by a query, re-initialised by reset after the clear): an incremental scheme, refused below
+                    incremental.setdefault(m.name, set()).add(d_attr)
+                    continue
                 bad = True
                 chk.violation(
                     "R05.a", m, dirty.node,
@@ -339,6 +406,10 @@ def run(ctx):
             shared = [o for o in w.origins if is_shared(o) and o[0] not in ("unknown",)]
             if not shared:
                 continue
+            nps = new_private_state(ctx, w)
+            if nps is not None:
+                incremental.setdefault(m.name, set()).add(nps)
+                continue
             bad = True
             chk.violation(
                 "R05.d", m, w.event.node,
@@ -355,6 +426,16 @@ def run(ctx):
         if not bad:
             chk.ok("R05.d", m.qualname, m.loc())
 
+    if incremental:
+        def _refuse():
+            q_, attrs_ = sorted(incremental.items())[0]
+            raise AnalysisError(
+                f"the memoised query {q_}() keeps state of its own between calls ({', '.join('self.' + a for a in sorted(attrs_))}), bookkeeping the "
+                "pinned tree does not have; whether such an incremental scheme answers what a recomputation from the schedule answers "
+                "is not decided by this analysis"
+            )
+
+        ctx.attempt(_refuse)
     # ---------------------------------------------------------------- R05.e
     ctx.attempt(_unscheduled_observer, ctx)
 
@@ -672,4 +753,11 @@ def _is_job_id_of(fi, idx, sop_name):
                 idx = n.value
                 break
     txt = ast.unparse(idx)
-    return txt in (f"{sop_name}.job_id", f"{sop_name}.operation.job_id")
+    if txt in (f"{sop_name}.job_id", f"{sop_name}.operation.job_id"):
+        return True
+    # through a local holding the operation: `operation = sop.operation` ... `[operation.job_id]`
+    if isinstance(idx, ast.Attribute) and idx.attr == "job_id" and isinstance(idx.value, ast.Name):
+        for n in own_nodes(fi.node):
+            if isinstance(n, ast.Assign) and any(isinstance(t, ast.Name) and t.id == idx.value.id for t in n.targets):
+                return ast.unparse(n.value) in (sop_name, f"{sop_name}.operation")
+    return False
